@@ -6,6 +6,7 @@ import PyTrie.Model.HexRaw
 import PyTrie.Model.HexRead
 import PyTrie.Model.IterRaw
 import PyTrie.Model.Walk
+import PyTrie.Model.HexRawT
 /-! Line-protocol front end for the hexary-trie model (commands `hx.*`). One reply line per
     command. Byte strings are lower-case hex (`-` = empty), nibble paths one hex digit per nibble
     (`-` = empty), the batch trie is addressed as `b`, other tries by number. -/
@@ -313,14 +314,18 @@ def step (st : St) (cmd : String) (args : List String) : St × String :=
       match val with
       | none => bad
       | some val =>
-        (st, match HexRaw.rawOp keccak w.base r k val with
-          | .ok (newRoot, st') =>
+        -- `rawOpT`: the transcription that also returns the state when an exception leaves the call
+        (st, match HexRawT.rawOpT keccak w.base r k val with
+          | (st', .ok newRoot) =>
             let added := st'.db.filter (fun e => !(w.base.any (fun o => o.1 == e.1)))
             let ded := added.foldl (fun acc e => if acc.any (fun x => x.1 == e.1) then acc else acc ++ [e]) []
             s!"root={toHex newRoot} added={joinOr ((sortPairs ded).map fun e => s!"{toHex e.1}:{toHex e.2}") ","}"
-          | .error (.missing h) => s!"exn missing {toHex h}"
-          | .error .invalid => "exn invalid"
-          | .error .fuel => "exn fuel")
+          | (st', .error (.missing h)) =>
+            -- what the failed call wrote before the exception (nothing, on the pinned code)
+            let wrote := st'.db.length - w.base.length
+            if wrote = 0 then s!"exn missing {toHex h}" else s!"exn missing {toHex h} after-writing {wrote}"
+          | (_, .error .invalid) => "exn invalid"
+          | (_, .error .fuel) => "exn fuel")
     | _, _ => bad
   -- raw level of the read path: traverse / get_proof over raw nodes read from the world's database
   | "travd", [r, p] =>
